@@ -201,3 +201,46 @@ Theorem C04_generated_index_arithmetic :
      (forall n f c, ra_up B x m n (S f) c = if (c <? n)%nat && gen_ra_up_test x (qbnd B (S c)) m then ra_up B x m n f (S c) else Z.of_nat c)).
 Proof. exact generated_index_arithmetic. Qed.
 Print Assumptions C04_generated_index_arithmetic.
+
+
+(* ---- (3') the two maxmatch passes of spherematch() as extracted on this run are the reference transliteration, and one
+   iteration of the reference passes tests both counters BEFORE incrementing them, as greedy_count / greedy_fill do ---- *)
+From Coq Require Import String.
+From PV Require Import C05.Imp C04.GreedyRef.
+Open Scope string_scope.
+Theorem C04_generated_greedy_is_reference :
+  gen_greedy_enabled = ref_greedy_enabled /\
+  gen_greedy_count_from = ref_greedy_count_from /\
+  gen_greedy_count_to = ref_greedy_count_to /\
+  gen_greedy_count_step = ref_greedy_count_step /\
+  gen_greedy_count_var = ref_greedy_count_var /\
+  gen_greedy_count_body = ref_greedy_count_body /\
+  gen_greedy_fill_from = ref_greedy_fill_from /\
+  gen_greedy_fill_to = ref_greedy_fill_to /\
+  gen_greedy_fill_step = ref_greedy_fill_step /\
+  gen_greedy_fill_var = ref_greedy_fill_var /\
+  gen_greedy_fill_body = ref_greedy_fill_body.
+Proof. exact generated_greedy_is_reference. Qed.
+Print Assumptions C04_generated_greedy_is_reference.
+
+Theorem C04_greedy_pass_specs : forall s,
+  let p := rd s "s" (sv s "i") in
+  let a := rd s "omatch1" p in
+  let b := rd s "omatch2" p in
+  let take := ((rd s "gotten1" a <? sv s "maxmatch") && (rd s "gotten2" b <? sv s "maxmatch"))%Z in
+  (let s' := ref_greedy_count_body s in
+   (forall x, rd s' "gotten1" x = if take then zupd (rd s "gotten1") a (rd s "gotten1" a + 1)%Z x else rd s "gotten1" x) /\
+   (forall x, rd s' "gotten2" x = if take then zupd (rd s "gotten2") b (rd s "gotten2" b + 1)%Z x else rd s "gotten2" x) /\
+   sv s' "nmatch" = if take then (sv s "nmatch" + 1)%Z else sv s "nmatch") /\
+  (let s' := ref_greedy_fill_body s in
+   (forall x, rd s' "gotten1" x = if take then zupd (rd s "gotten1") a (rd s "gotten1" a + 1)%Z x else rd s "gotten1" x) /\
+   (forall x, rd s' "gotten2" x = if take then zupd (rd s "gotten2") b (rd s "gotten2" b + 1)%Z x else rd s "gotten2" x) /\
+   (forall x, rd s' "match1" x = if take then zupd (rd s "match1") (sv s "nmatch") a x else rd s "match1" x) /\
+   (forall x, rd s' "match2" x = if take then zupd (rd s "match2") (sv s "nmatch") b x else rd s "match2" x) /\
+   (forall x, rd s' "distance12" x = if take then zupd (rd s "distance12") (sv s "nmatch") (rd s "odistance12" p) x else rd s "distance12" x) /\
+   sv s' "nmatch" = if take then (sv s "nmatch" + 1)%Z else sv s "nmatch") /\
+  (ref_greedy_count_from s = 0%Z /\ ref_greedy_count_to s = sv s "omatch1_size" /\ ref_greedy_count_step s = 1%Z /\
+   ref_greedy_fill_from s = 0%Z /\ ref_greedy_fill_to s = sv s "omatch1_size" /\ ref_greedy_fill_step s = 1%Z /\
+   ref_greedy_count_var = "i" /\ ref_greedy_fill_var = "i" /\ ref_greedy_enabled s = (sv s "maxmatch" >? 0)%Z).
+Proof. exact greedy_pass_specs. Qed.
+Print Assumptions C04_greedy_pass_specs.
